@@ -8,7 +8,7 @@ use bc_envelope::prelude::*;
 use super::c02::pick_targets;
 use super::common::*;
 use crate::ctx::Ctx;
-use crate::gen::{self, action, Act, ACTS};
+use crate::gen::{self, Act, ACTS};
 use crate::json::J;
 use crate::pos::{path_str, tree_of, Path, T};
 use crate::spec::{Kind, D32};
@@ -129,7 +129,9 @@ pub fn run(ctx: &mut Ctx) {
     for case in ctx.cases(total) {
         ctx.begin_case(case);
         let mut rng = ctx.rng(case);
-        let (_m, e0) = universe(&mut rng, cfg_for(ctx, case), case);
+        let mut cfg = cfg_for(ctx, case);
+        cfg.node_subject = case % 5 == 2;
+        let (_m, e0) = universe(&mut rng, cfg, case);
         let key = fresh_key(&mut rng);
         let pre = rng.chance(1, 3);
         let e = if pre { gen::obscure_random(&e0, &mut rng, 2, &key) } else { e0.clone() };
@@ -156,7 +158,6 @@ pub fn run(ctx: &mut Ctx) {
         }
         for targets in target_sets {
             let tset: HashSet<D32> = targets.iter().cloned().collect();
-            let set: HashSet<Digest> = gen::digest_set(&targets);
             let revealing = rng.chance(1, 2);
             let mut act = *rng.pick(&ACTS);
             if act == Act::Compress && has_hidden {
@@ -177,7 +178,8 @@ pub fn run(ctx: &mut Ctx) {
                     ("action", J::s(format!("{:?}", act))),
                 ])
             };
-            let r = match trap::guard(|| e.elide_set_with_action(&set, revealing, &action(act, &key))) {
+            let mut r4 = rng.fork();
+            let r = match trap::guard(|| gen::elide_via_any_entry_point(&e, &targets, revealing, act, &key, &mut r4)) {
                 Ok(r) => r,
                 Err(p) => {
                     ctx.violation(&format!("elide-panic/{:?}/{}", act, p.signature()), &format!("{:?}", p), replay());
